@@ -103,6 +103,7 @@ class Built:
         self.cchoices = {}       # kid -> ConnectionChoiceNode
         self.names = {}          # node -> name  (all, incl. choices)
         self.error = None        # exception raised while building, if any
+        self.init_auto = {}      # choices auto-resolved during initialisation {cid: option name | None}
 
     def name(self, node):
         return self.names.get(node, repr(node))
@@ -176,10 +177,23 @@ def build(spec, ids=None, initialize=True, constrain=True):
     if not initialize:
         b.dsg = dsg
         return b
+    init_auto = {}
+
+    def grab(d, prev):
+        cur = d.get_taken_single_selection_choices()
+        if cur is not prev:  # a new list object = a resolution pass ran during the last call
+            for c, o in cur:
+                init_auto[b.name(c)] = None if o is None else b.name(o)
+        return cur
+
+    prev = dsg.get_taken_single_selection_choices()
     dsg = dsg.set_start_nodes({N[s] for s in spec['starts']})
+    prev = grab(dsg, prev)
     if constrain:
         for ctype, members in spec.get('cc', []):
             nodes = [b.choices[m] if m in b.choices else N[m] for m in members]
             dsg = dsg.constrain_choices(ChoiceConstraintType[ctype], nodes)
+            prev = grab(dsg, prev)
     b.dsg = dsg
+    b.init_auto = init_auto
     return b
